@@ -107,6 +107,14 @@ func runC03(k *eng.Check, tier string) {
 			nT++
 			name := eng.Name(eng.Outermost(fn))
 			_, ok := truncOK[name]
+			if !ok {
+				// a helper that only an owner calls (the owner split into phases) is part of that owner
+				for owner := range truncOK {
+					if eng.OnlyCalledFrom(eng.Outermost(fn), map[string]bool{owner: true}, nbs, 2) {
+						ok = true
+					}
+				}
+			}
 			k.Require("truncate-owners", name+"#Truncate", "only the frozen set of functions truncates a file in store/nbs", ok, c.InstrPos(call.(ssa.Instruction)), "new truncation site")
 		}
 	}
@@ -142,7 +150,9 @@ func runC03(k *eng.Check, tier string) {
 	}
 
 	// (4) recovery truncate
-	if fn := k.Fn("store/nbs.processJournalRecords"); fn != nil {
+	if fn := k.Fn("store/nbs.processJournalRecords"); fn != nil && len(c.FamilyOf(fn, nbs, 2)) > 1 && eng.CallSet(fn, eng.Static("(*os.File).Truncate")).Len() == 0 {
+		c03RecoveryFamily(k, c.FamilyOf(fn, nbs, 2), mSync)
+	} else if fn != nil {
 		trunc := eng.CallSet(fn, eng.Static("(*os.File).Truncate"))
 		scan := eng.CallSet(fn, eng.Static("store/nbs.possibleDataLossCheck"))
 		notRecovered := eng.CondEdges(fn, `recovered|processJournalRecordsReader\(.*\)#2`, false)
@@ -336,4 +346,73 @@ func isConstInt(v ssa.Value, n int64) bool {
 		return x == n
 	}
 	return false
+}
+
+// c03RecoveryFamily: the recovery-truncate rules of processJournalRecords when the function has been split into
+// single-caller phase helpers (scan / settle): the same obligations, decided over the helper tree.
+func c03RecoveryFamily(k *eng.Check, fam []*ssa.Function, mSync eng.CallM) {
+	fn := fam[0]
+	truncF := func(g *ssa.Function) *eng.Set { return eng.CallSet(g, eng.Static("(*os.File).Truncate")) }
+	scanOrNotRecovered := func(g *ssa.Function) *eng.Set {
+		return eng.UnionOf(eng.CallSet(g, eng.Static("store/nbs.possibleDataLossCheck")), eng.CondEdges(g, `recovered|processJournalRecordsReader\(.*\)#2`, false))
+	}
+	k.OnlyAfterFam("truncate-after-dataloss-scan", fam, "Truncate is unreachable once the data-loss scan and the recovered==false edge are removed", truncF, 1, scanOrNotRecovered)
+	k.OnlyAfterFam("dataloss-scan-on-every-recovery", fam, "once an unusable record stopped the replay (recovered == true), a success exit is reached only after the data-loss scan ran",
+		func(g *ssa.Function) *eng.Set {
+			if g == fn {
+				return eng.SuccessExits(g)
+			}
+			return eng.NewSet()
+		}, 1, scanOrNotRecovered)
+	k.OnlyAfterFam("truncate-needs-tryTruncate", fam, "Truncate only on the tryTruncate-true edge", truncF, 1, func(g *ssa.Function) *eng.Set { return predTrueEdges(g) })
+	// the can-truncate flag a phase branches on is the caller's own flag
+	for _, g := range fam {
+		for _, b := range g.Blocks {
+			for _, in := range b.Instrs {
+				ci, ok := in.(ssa.CallInstruction)
+				if !ok {
+					continue
+				}
+				h := ci.Common().StaticCallee()
+				isFam := false
+				for _, x := range fam[1:] {
+					if x == h {
+						isFam = true
+					}
+				}
+				if !isFam || predTrueEdges(h).Len() == 0 {
+					continue
+				}
+				for i, a := range ci.Common().Args {
+					if bt, isB := a.Type().Underlying().(*types.Basic); isB && bt.Kind() == types.Bool && i < len(h.Params) {
+						_, fromParam := eng.Origin(a).(*ssa.Parameter)
+						k.Require("truncate-needs-tryTruncate", eng.Name(g)+"->"+eng.Name(h)+"#flag", "the phase that truncates is handed the caller's own can-truncate flag", fromParam, k.C.InstrPos(in), "the flag passed to the truncating phase is not the caller's parameter")
+					}
+				}
+			}
+		}
+	}
+	nDL, nTr := 0, 0
+	for _, g := range fam {
+		// the data-loss verdict is an error where it is computed
+		dl := eng.CondEdges(g, `^call:store/nbs\.possibleDataLossCheck\(.*\)#0$`, true)
+		if dl.Len() > 0 {
+			nDL++
+			var starts []eng.Point
+			for e := range dl.E {
+				starts = append(starts, eng.Point{B: e.To(), I: 0})
+			}
+			k.OnlyAfter("dataloss-is-error", g, "when the scan reports data loss, neither Truncate nor a success exit is reachable", eng.UnionOf(truncF(g), eng.SuccessExits(g)), 1, eng.NewSet(), starts...)
+		}
+		for in := range truncF(g).I {
+			nTr++
+			k.OnlyAfter("truncate-then-sync", g, "after Truncate a success exit is reached only through Sync", eng.SuccessExits(g), 1, k.OkCalls(g, "sync", mSync), eng.After(in))
+		}
+	}
+	if nDL < 1 {
+		k.Unknown("dataloss-is-error", eng.Name(fn), "the branch on the data-loss verdict", "no If on the first result of possibleDataLossCheck in the function or its phase helpers")
+	}
+	if nTr < 1 {
+		k.Unknown("truncate-then-sync", eng.Name(fn), "the recovery Truncate", "not found in the function or its phase helpers")
+	}
 }
